@@ -59,6 +59,7 @@ inductive Ev
   | wake (a : Actor) (n : Actor)
   | rel (a : Actor) (ready : Bool) (empty : Bool)
   | obsLock (v : Bool)
+  | obs (ready : Bool)     -- snapshot taken inside a critical section (at the futex-word store of the broadcast)
 deriving Repr
 
 structure St where
@@ -162,6 +163,7 @@ def step (s : St) : Ev → Option St
   | .wake a n => stepWake s a n
   | .rel a r e => stepRel s a r e
   | .obsLock v => if v = s.lock.isSome then some s else none
+  | .obs r => if r = s.ready then some s else none
 
 def machine (kind : Actor → Kind) (nbytes : Nat) (v0 : Val) : Machine St Ev :=
   { init := init kind nbytes v0, step := step }
